@@ -36,6 +36,20 @@ type Spec struct {
 	// Parts: the check consists of several harness runs (each with VERIF_PART=<name>) whose evidence is merged.
 	// A part with an empty "use" is this spec's own harness.
 	Parts []Part `json:"parts"`
+	// Acc (only next to "use"): build the used harness with this list of race-detector locations instead of its own
+	// (a build of its own, under .gen/<use>-<id>).
+	Acc []string `json:"acc"`
+}
+
+// withAcc returns build description b as check s wants it.
+func withAcc(s, b *Spec) *Spec {
+	if len(s.Acc) == 0 || s == b {
+		return b
+	}
+	c := *b
+	c.ID = b.ID + "-" + s.ID
+	c.InstOpts.Acc = s.Acc
+	return &c
 }
 
 type Part struct {
@@ -78,7 +92,7 @@ func buildSpecOf(s *Spec, p Part) *Spec {
 		return readSpec(p.Use)
 	}
 	if s.Use != "" {
-		return readSpec(s.Use)
+		return withAcc(s, readSpec(s.Use))
 	}
 	return s
 }
@@ -207,7 +221,7 @@ func loadSpec(id string) (*Spec, *Spec) {
 	s := read(id)
 	b := s
 	if s.Use != "" {
-		b = read(s.Use)
+		b = withAcc(s, read(s.Use))
 	}
 	return s, b
 }
